@@ -36,15 +36,13 @@ def sym_arg(name, ty):
     return Sym(z3.Const(name, sort_of(ty)), ty)
 
 
-def verify_function(src, con, models, axioms=(), prefix=None, prune=True):
-    """Symbolically execute the real body of con's function against con.
-
-    Returns dict(obligations=[Obligation], paths=int, error=None|str, meta)
-    """
+def _setup_and_run(src, con, models, axioms=(), prefix=None, prune=True):
+    """Symbolically execute the real body of con's function from a symbolic entry state that satisfies con.requires.
+    -> (early_result_dict | None, eng, args, entry_heap, c0, results, meta, sink)"""
     sink = []
     fd = src.find(con.file, con.qual)
     if fd is None:
-        return dict(obligations=[], paths=0, error=f"function {con.qual} not found in {con.file}", meta={})
+        return dict(obligations=[], paths=0, error=f"function {con.qual} not found in {con.file}", meta={}), None, None, None, None, None, None, None
     eng = Engine(src, con.file, models, sink, list(axioms), prune)
     eng.prefix = prefix or con.qual
     eng.cur_fn_name = con.qual
@@ -112,7 +110,18 @@ def verify_function(src, con, models, axioms=(), prefix=None, prune=True):
         else:
             results = eng.exec_block(fd.body, st)
     except OutOfSubset as ex:
-        return dict(obligations=[], paths=0, error=str(ex), meta=meta)
+        return dict(obligations=[], paths=0, error=str(ex), meta=meta), None, None, None, None, None, None, None
+    return None, eng, args, entry_heap, c0, results, meta, sink
+
+
+def verify_function(src, con, models, axioms=(), prefix=None, prune=True):
+    """Symbolically execute the real body of con's function against con.
+
+    Returns dict(obligations=[Obligation], paths=int, error=None|str, meta)
+    """
+    early, eng, args, entry_heap, c0, results, meta, sink = _setup_and_run(src, con, models, axioms, prefix, prune)
+    if early is not None:
+        return early
     npaths = 0
     raise_conds = {exc: (f[1] if isinstance(f, tuple) else f)(c0) for exc, f in con.raises.items()}
     only_if = {exc for exc, f in con.raises.items() if isinstance(f, tuple)}
